@@ -6,6 +6,7 @@
   every parent. Helper lemmas: `Props/Lemmas/C19_Find.lean`.
 -/
 import Props.Lemmas.C19_Find
+import Props.Lemmas.C19_Session
 
 namespace Pypyr.C19
 open Pypyr.Resolve
@@ -182,12 +183,15 @@ example : childParent { loader := none, resolveFromParent := none, parent := non
 
 /-- `sys_path_has_pipeline_dir`: after `get_pipeline_definition` returned a pipeline file, that
     file's directory is on `sys.path` (whether it was parsed now or served from `file_cache`), and
-    the invariant that makes this true is kept — so it holds after any sequence of loads. -/
-theorem sys_path_has_pipeline_dir (fs : Fs) (hfs : FsOk fs) (st : LoadState) (hg : Good fs st)
+    the invariant that makes this true is kept — so it holds after any sequence of loads. The
+    invariant `Good` does not mention the file system: the file system may change in any way
+    between loads (directories appearing after `add_sys_path` first saw them absent included —
+    the rule repaired by /repo 0afb649: a directory absent at first sight is looked at again). -/
+theorem sys_path_has_pipeline_dir (fs : Fs) (hfs : FsOk fs) (st : LoadState) (hg : Good st)
     (name : Name) (parent : Option Path) (p : Path)
     (h : (getPipelineDefinition fs st name parent).1 = .ok p) :
     dirOf p ∈ (getPipelineDefinition fs st name parent).2.sysPath ∧
-    Good fs (getPipelineDefinition fs st name parent).2 := by
+    Good (getPipelineDefinition fs st name parent).2 := by
   unfold getPipelineDefinition at h ⊢
   cases hr : getPipelinePath fs name parent with
   | error e => simp [hr] at h
@@ -202,7 +206,8 @@ theorem sys_path_has_pipeline_dir (fs : Fs) (hfs : FsOk fs) (st : LoadState) (hg
     · simp only [hc, if_false] at h ⊢
       have e := Except.ok.inj h; subst e
       have hk : ∀ d ∈ ({ st with fileCache := q :: st.fileCache } : LoadState).known,
-          fs.dirExists d = true → d ∈ ({ st with fileCache := q :: st.fileCache } : LoadState).sysPath := hg.known
+          d ∉ ({ st with fileCache := q :: st.fileCache } : LoadState).missing →
+          d ∈ ({ st with fileCache := q :: st.fileCache } : LoadState).sysPath := hg.known
       refine ⟨addSysPath_mem fs _ _ hk hdir, ⟨?_, addSysPath_known fs _ _ hk⟩⟩
       intro x hx
       rw [addSysPath_fileCache] at hx
@@ -211,10 +216,229 @@ theorem sys_path_has_pipeline_dir (fs : Fs) (hfs : FsOk fs) (st : LoadState) (hg
       · exact addSysPath_mono fs _ _ _ (hg.cached x hx)
 
 /-- the empty start state satisfies the invariant -/
-theorem good_init (fs : Fs) (sysPath : List Path) : Good fs { fileCache := [], sysPath := sysPath, known := [] } :=
+theorem good_init (sysPath : List Path) : Good { fileCache := [], sysPath := sysPath, known := [] } :=
   ⟨by simp, by simp⟩
 
 example : (getPipelineDefinition exFs { fileCache := [], sysPath := [["site"]], known := [] }
     (.rel ["x"]) none).2.sysPath = [["site"], ["w", "pipelines"]] := by decide
+
+/-! ### sequences of look-ups in one process: the warm cache never changes what a name resolves to -/
+
+/-- `session_cold` — for EVERY sequence of look-ups (any names, any parents, any `Pipeline` objects,
+    in any order), file-system changes, `clear_all()`s and `no_cache` toggles: a look-up made when
+    every cache layer has been cleared since the file system last changed (or with caching off)
+    resolves to exactly what the same look-up yields in a cold process — the first existing
+    candidate in the documented order for ITS OWN (name, parent), or the not-found error. Earlier
+    look-ups — for other names, from other parents, falling through to other places — cannot
+    change it. -/
+theorem session_cold (parse : String → Name) (ops : List SOp) :
+    ∀ (fs : Fs) (nc dirty : Bool) (s : Sess), (dirty = false → SCoh parse fs s) →
+    ∀ x ∈ runSess parse fs nc dirty s ops, x.2.1 = true → x.1 = x.2.2 := by
+  induction ops with
+  | nil => intro fs nc dirty s _ x hx; simp [runSess] at hx
+  | cons op ops ih =>
+    intro fs nc dirty s hc x hx hclean
+    cases op with
+    | req r =>
+      simp only [runSess, List.mem_cons] at hx
+      rcases hx with rfl | hx
+      · simp only [Bool.or_eq_true, Bool.not_eq_true'] at hclean
+        cases nc with
+        | true => exact (request_noCache parse fs s r).1
+        | false =>
+          have hd : dirty = false := by simpa using hclean
+          exact (request_cold parse fs false s r (hc hd)).1
+      · refine ih fs nc dirty _ ?_ x hx hclean
+        intro hd
+        exact (request_cold parse fs nc s r (hc hd)).2
+    | fs fs' =>
+      simp only [runSess] at hx
+      exact ih fs' nc true s (by simp) x hx hclean
+    | clear =>
+      simp only [runSess] at hx
+      exact ih fs nc false _ (fun _ => scoh_clear parse fs s) x hx hclean
+    | noCache b =>
+      simp only [runSess] at hx
+      exact ih fs b dirty s hc x hx hclean
+    | pyDir d =>
+      simp only [runSess] at hx
+      exact ih fs nc dirty (s.pyDir fs d) (fun hd a b c h => hc hd a b c h) x hx hclean
+
+/-- `warm_equals_cold` — in an unchanging file system EVERY look-up of EVERY sequence, from a
+    cold start, resolves as in a cold process. -/
+theorem warm_equals_cold (parse : String → Name) (fs : Fs) (sp : List Path) (ops : List SOp)
+    (hno : ∀ fs', SOp.fs fs' ∉ ops) (nc : Bool) :
+    ∀ x ∈ runSess parse fs nc false (Sess.init sp) ops, x.1 = x.2.2 := by
+  have key : ∀ (ops : List SOp) (nc : Bool) (s : Sess), (∀ fs', SOp.fs fs' ∉ ops) → SCoh parse fs s →
+      ∀ x ∈ runSess parse fs nc false s ops, x.1 = x.2.2 := by
+    intro ops
+    induction ops with
+    | nil => intro nc s _ _ x hx; simp [runSess] at hx
+    | cons op ops ih =>
+      intro nc s hno hc x hx
+      have hno' : ∀ fs', SOp.fs fs' ∉ ops := fun fs' h => hno fs' (List.mem_cons_of_mem _ h)
+      cases op with
+      | req r =>
+        simp only [runSess, List.mem_cons] at hx
+        rcases hx with rfl | hx
+        · exact (request_cold parse fs nc s r hc).1
+        · exact ih nc _ hno' (request_cold parse fs nc s r hc).2 x hx
+      | fs fs' => exact absurd List.mem_cons_self (hno fs')
+      | clear => simp only [runSess] at hx; exact ih nc _ hno' (scoh_clear parse fs s) x hx
+      | noCache b => simp only [runSess] at hx; exact ih b s hno' hc x hx
+      | pyDir d => simp only [runSess] at hx; exact ih nc (s.pyDir fs d) hno' (fun a b c h => hc a b c h) x hx
+  exact key ops nc _ hno (scoh_init parse fs sp)
+
+/-- `request_ignores_object` — which `Pipeline` object issues the look-up (and whatever it ran
+    before, with whatever parent) plays no part in it. -/
+theorem request_ignores_object (parse : String → Name) (fs : Fs) (nc : Bool) (s : Sess) (r : Req) (o : Nat) :
+    request parse fs nc s { r with obj := o } = request parse fs nc s r := rfl
+
+def exParse : String → Name
+  | "x" => .rel ["x"]
+  | "sub/c" => .rel ["sub", "c"]
+  | "c" => .rel ["c"]
+  | "/p/x" => .abs ["p", "x"]
+  | _ => .rel ["none"]
+
+/-- cwd `/w` holds `x.yaml`, `c.yaml` and `sub/c.yaml`; `/p` and `/p/sub` are empty directories -/
+def exFs2 : Fs :=
+  { cwd := ["w"], builtin := ["b"],
+    isFile := fun p => p == ["w", "x.yaml"] || p == ["w", "c.yaml"] || p == ["w", "sub", "c.yaml"],
+    dirExists := fun d => d == ["w"] || d == ["w", "sub"] || d == ["b"] || d == ["p"] || d == ["p", "sub"] }
+
+/-- relative `x` from `/p` falls through to the cwd; afterwards the ABSOLUTE `/p/x` is still not
+    found; `sub/c` from `/p` and `c` from `/p/sub` fall through to different cwd files. -/
+example : (runSess exParse exFs2 false false (Sess.init [])
+      [.req ⟨0, "x", some ["p"]⟩, .req ⟨1, "/p/x", some ["p"]⟩,
+       .req ⟨2, "sub/c", some ["p"]⟩, .req ⟨3, "c", some ["p", "sub"]⟩, .req ⟨0, "x", none⟩]).map (·.1) =
+    [.ok ["w", "x.yaml"], .error "/p/x.yaml does not exist.", .ok ["w", "sub", "c.yaml"], .ok ["w", "c.yaml"],
+     .ok ["w", "x.yaml"]] := by
+  rfl
+
+/-- `joined_key_collides` — NOT pypyr: keyed on `os.path.join(str(parent), name)` (the first
+    candidate only) these requests would share a cache entry although they resolve differently;
+    the key `(str(parent), name)` of the model keeps them apart. -/
+theorem joined_key_collides :
+    joinedKey exParse ⟨0, "x", some ["p"]⟩ = joinedKey exParse ⟨1, "/p/x", none⟩ ∧
+    getPipelinePath exFs2 (exParse "x") (some ["p"]) = .ok ["w", "x.yaml"] ∧
+    getPipelinePath exFs2 (exParse "/p/x") none = .error "/p/x.yaml does not exist." ∧
+    joinedKey exParse ⟨2, "sub/c", some ["p"]⟩ = joinedKey exParse ⟨3, "c", some ["p", "sub"]⟩ ∧
+    getPipelinePath exFs2 (exParse "sub/c") (some ["p"]) = .ok ["w", "sub", "c.yaml"] ∧
+    getPipelinePath exFs2 (exParse "c") (some ["p", "sub"]) = .ok ["w", "c.yaml"] := by
+  refine ⟨rfl, rfl, rfl, rfl, rfl, rfl⟩
+
+/-- `request_sys_path` — also when a pipeline is served from the warm cache its directory is on
+    `sys.path`; the invariant (which does not mention the file system) survives the look-up. -/
+theorem request_sys_path (parse : String → Name) (fs : Fs) (hfs : FsOk fs) (nc : Bool) (s : Sess) (r : Req)
+    (hg : SGood s) :
+    SGood (request parse fs nc s r).2 ∧
+    ∀ p, (request parse fs nc s r).1 = .ok p → dirOf p ∈ (request parse fs nc s r).2.load.sysPath := by
+  cases nc with
+  | true =>
+    unfold request
+    simp only [if_true]
+    cases hp : getPipelinePath fs (parse r.nameStr) r.parent with
+    | error e => exact ⟨hg, fun p h => by cases h⟩
+    | ok q =>
+      simp only
+      have hdir := hfs q (getPipelinePath_isFile fs _ _ q hp)
+      refine ⟨⟨⟨?_, addSysPath_known fs _ _ hg.load.known⟩, ?_⟩, ?_⟩
+      · intro x hx
+        rw [addSysPath_fileCache] at hx
+        exact addSysPath_mono fs _ _ _ (hg.load.cached x hx)
+      · intro k p hm
+        exact addSysPath_mono fs _ _ _ (hg.served k p hm)
+      · intro p h
+        cases h
+        exact addSysPath_mem fs _ _ hg.load.known hdir
+  | false =>
+    unfold request
+    simp only [Bool.false_eq_true, if_false]
+    cases hl : s.lookup (r.parent, r.nameStr) with
+    | some q =>
+      simp only
+      exact ⟨hg, fun p h => by cases h; exact hg.served _ _ (lookup_mem hl)⟩
+    | none =>
+      simp only
+      have hsp := sys_path_has_pipeline_dir fs hfs s.load hg.load (parse r.nameStr) r.parent
+      have hmono : ∀ x ∈ s.load.sysPath, x ∈ (getPipelineDefinition fs s.load (parse r.nameStr) r.parent).2.sysPath := by
+        intro x hx
+        unfold getPipelineDefinition
+        cases getPipelinePath fs (parse r.nameStr) r.parent with
+        | error e => exact hx
+        | ok q =>
+          simp only
+          split
+          · exact hx
+          · exact addSysPath_mono fs _ _ _ hx
+      cases hd : getPipelineDefinition fs s.load (parse r.nameStr) r.parent with
+      | mk res ld =>
+        rw [hd] at hsp hmono
+        simp only at hsp hmono
+        cases res with
+        | error e =>
+          simp only
+          refine ⟨⟨?_, fun k p hm => hmono _ (hg.served k p hm)⟩, fun p h => by cases h⟩
+          have hg' : Good (getPipelineDefinition fs s.load (parse r.nameStr) r.parent).2 := by
+            unfold getPipelineDefinition
+            have hfst := getPipelineDefinition_fst fs s.load (parse r.nameStr) r.parent
+            rw [hd] at hfst
+            simp only at hfst
+            rw [← hfst]
+            exact hg.load
+          rw [hd] at hg'
+          exact hg'
+        | ok q =>
+          simp only
+          have := hsp q rfl
+          refine ⟨⟨this.2, ?_⟩, fun p h => by cases h; exact this.1⟩
+          intro k p hm
+          simp only [List.mem_cons, Prod.mk.injEq] at hm
+          rcases hm with ⟨_, rfl⟩ | hm
+          · exact this.1
+          · exact hmono _ (hg.served k p hm)
+
+/-- `session_sys_path` — for EVERY session (look-ups, clears, `no_cache` toggles and ANY changes of the
+    file system in between: files and directories appearing or disappearing, in particular a
+    directory that `add_sys_path` saw absent earlier), whenever a look-up yields a pipeline file, that
+    file's directory is on `sys.path` right then: custom step modules next to it are importable. -/
+theorem session_sys_path (parse : String → Name) (ops : List SOp) :
+    ∀ (fs : Fs) (nc : Bool) (s : Sess), FsOk fs → (∀ fs', SOp.fs fs' ∈ ops → FsOk fs') → SGood s →
+    ∀ x ∈ runSessPath parse fs nc s ops, ∀ p, x.1 = .ok p → dirOf p ∈ x.2 := by
+  induction ops with
+  | nil => intro fs nc s _ _ _ x hx; simp [runSessPath] at hx
+  | cons op ops ih =>
+    intro fs nc s hfs hall hg x hx p hp
+    have hall' : ∀ fs', SOp.fs fs' ∈ ops → FsOk fs' := fun fs' h => hall fs' (List.mem_cons_of_mem _ h)
+    cases op with
+    | req r =>
+      have hr := request_sys_path parse fs hfs nc s r hg
+      simp only [runSessPath, List.mem_cons] at hx
+      rcases hx with rfl | hx
+      · exact hr.2 p hp
+      · exact ih fs nc _ hfs hall' hr.1 x hx p hp
+    | fs fs' =>
+      simp only [runSessPath] at hx
+      exact ih fs' nc s (hall fs' List.mem_cons_self) hall' hg x hx p hp
+    | clear =>
+      simp only [runSessPath] at hx
+      exact ih fs nc _ hfs hall' (sgood_clear s hg) x hx p hp
+    | noCache b =>
+      simp only [runSessPath] at hx
+      exact ih fs b s hfs hall' hg x hx p hp
+    | pyDir d =>
+      simp only [runSessPath] at hx
+      exact ih fs nc _ hfs hall' (sgood_pyDir fs s d hg) x hx p hp
+
+/-- the repaired rule at work: `/late` is handed to `add_sys_path` while absent (remembered as
+    missing), appears, and is then put on `sys.path` by the load of `/late/x.yaml`. -/
+example :
+    let fsA : Fs := { cwd := ["w"], builtin := ["b"], isFile := fun _ => false, dirExists := fun d => d == ["w"] }
+    let fsB : Fs := { fsA with isFile := fun p => p == ["late", "x.yaml"], dirExists := fun d => d == ["w"] || d == ["late"] }
+    let st1 := addSysPath fsA { fileCache := [], sysPath := [], known := [] } ["late"]
+    st1.sysPath = [] ∧ st1.missing = [["late"]] ∧
+    (getPipelineDefinition fsB st1 (.abs ["late", "x"]) none).2.sysPath = [["late"]] := by
+  decide
 
 end Pypyr.C19
